@@ -117,6 +117,8 @@ def expand(ob, tier):
             defs = ['-D%s=%s' % kv for kv in sorted(pt['defs'].items())]
             if 'unwind' in pt:
                 defs.append('@unwind=%d' % pt['unwind'])
+            if not pt.get('quick'):
+                defs.append('@noreach')   # the reachability twin is run on the quick grid points (same harness, same assumptions)
             out.append(('%s[%s]' % (ob.name, pt['name']), defs))
         return out
     fe = ob.opts.get('foreach')
@@ -463,7 +465,7 @@ def run_property(prop, tier, only=None, unit=None, use_cache=True, jobs_n=None):
         futs = []
         for (u, ob, inst, defs) in jobs:
             futs.append(ex.submit(run_ob, u, ob, inst, defs, tier, use_cache, True, False))
-            if ob.opts.get('reach', 'yes') != 'no':
+            if ob.opts.get('reach', 'yes') != 'no' and '@noreach' not in defs:
                 futs.append(ex.submit(run_ob, u, ob, inst, defs, tier, use_cache, False, True))
             for k in kf:
                 if k['unit'] == u.name and k['ob'] == ob.name and k.get('exclude_def'):
